@@ -95,6 +95,25 @@ func genC14(r *Rng, tier string) []Case {
 				enc(d, rs, r.Bytes(n))
 			}
 		}
+		// a short final (or only) record of every length around 2^k and 2^k+32 (buffer-size classes
+		// of a decoder: record, record + proof), under a larger record size and as the tail of a longer payload
+		for k := 6; k <= 13; k++ {
+			for _, dlt := range []int{-1, 0, 1, 31, 32, 33} {
+				L := 1<<uint(k) + dlt
+				rss := []int{16384, L + 1 + r.Intn(100)}
+				if tier == "thorough" {
+					rss = append(rss, L+1, 2*L, 9000)
+				}
+				for _, rs := range rss {
+					if L < rs && rs <= 16384 {
+						enc(d, rs, r.Bytes(L))
+					}
+				}
+				if L+40 <= 16384 && (k <= 9 || tier == "thorough") {
+					enc(d, L+40, r.Bytes(L+40+L))
+				}
+			}
+		}
 		n := 150
 		if tier == "thorough" {
 			n = 3000
@@ -146,6 +165,10 @@ func genC15(r *Rng, tier string) []Case {
 			// every truncation length
 			for i := 0; i < len(stream); i++ {
 				dec(d, stream[:i], dg, 16384, pick(), rks[r.Intn(4)])
+			}
+			// ... and the source failing (not with EOF) after every prefix, the complete stream included
+			for i := 0; i <= len(stream); i++ {
+				cs = append(cs, Case{"mi_dec", []Sx{draftSym(d), B(stream[:i]), B([]byte(dg)), Zu(16384), sizesSx(pick()...), Sym("ioerr")}})
 			}
 			// appended suffixes
 			for _, k := range []int{1, c.rs, c.rs + 31, c.rs + 32, c.rs + 33} {
